@@ -363,3 +363,77 @@ def analyse(prog, util=False):
         sites += s
         undecided += u
     return sites, undecided
+
+
+# ---- symbolic straight-line evaluation over the values the counters had on entry --------------------------------------
+
+def _shift(v, d):
+    return None if v is None else (v[0], v[1] + d)
+
+
+def symval(e, env):
+    """value of the expression as (base, c): entry-value of access path `base` plus c (base None = constant); None = unknown.
+    Evaluated AFTER the expression's own ++/-- side effects were applied to env (CFG element order)."""
+    l = lin(e)
+    if l is None:
+        return None
+    if l[0] is None:
+        return (None, l[1])
+    cur = env.get(l[0], (l[0], 0))
+    return _shift(cur, l[1])
+
+
+def sym_effects(n, env):
+    if n.k == "UnaryOperator" and n.j.get("op") in ("++", "--"):
+        k = render(n.children[0])
+        env[k] = _shift(env.get(k, (k, 0)), 1 if n.j["op"] == "++" else -1)
+    elif n.k == "CompoundAssignOperator" and n.j.get("op") in ("+=", "-="):
+        k = render(n.children[0])
+        cv = n.children[1].const_value()
+        env[k] = None if cv is None else _shift(env.get(k, (k, 0)), cv if n.j["op"] == "+=" else -cv)
+    elif n.k == "BinaryOperator" and n.j.get("op") == "=":
+        env[render(n.children[0])] = symval(n.children[1], env)
+    elif n.k == "DeclStmt":
+        for d in n.j.get("decls", []):
+            if d.get("init", -1) >= 0:
+                env[d["name"]] = symval(n.fn.nodes[d["init"]], env)
+    elif n.k == "CallExpr":
+        for a in n.call_args():
+            a2 = a.strip()
+            if a2.k == "UnaryOperator" and a2.j.get("op") == "&":
+                env[render(a2.children[0])] = None
+
+
+def symbolic_snapshots(fn, nodes, limit=400):
+    """{node id: [env, ...]} - the symbolic environment (over entry values) just before each of `nodes` is evaluated, for
+    every acyclic path from the function entry; plus key 'exit': environments at the returns, tagged with the ids of the
+    target nodes passed on the way."""
+    cfg = fn.cfg
+    pos = {}
+    for n in nodes:
+        p = cfg.index_of(n)
+        if p is not None:
+            pos[p] = n.id
+    succ = {}
+    for (b, i, s2) in cfg.edges():
+        succ.setdefault(b, []).append(s2)
+    out = {"exit": []}
+    budget = [limit]
+
+    def walk(b, env, seen, passed):
+        if budget[0] <= 0:
+            return
+        budget[0] -= 1
+        for k, n in enumerate(cfg.blocks[b].elems):
+            if (b, k) in pos:
+                out.setdefault(pos[(b, k)], []).append(dict(env))
+                passed = passed | {pos[(b, k)]}
+            sym_effects(n, env)
+            if n.k == "ReturnStmt" and not n.j.get("inlined_return"):
+                out["exit"].append((dict(env), passed))
+                return
+        for s2 in succ.get(b, []):
+            if s2 not in seen:
+                walk(s2, dict(env), seen | {s2}, passed)
+    walk(cfg.entry, {}, {cfg.entry}, frozenset())
+    return out
